@@ -607,13 +607,15 @@ def einsum_sublist_target(ctx, world):
             if not (is_call_to(t, "autograd.numpy.numpy_vjps.unbroadcast_einsum") and len(t.args) == 3):
                 continue
             E, M, S = t.args
-            if not (E.op == "call" and len(E.args) == 2 and E.args[1].op == "star"):
+            if not (E.op == "call" and len(E.args) >= 2 and any(a.op == "star" for a in E.args[1:])):
                 continue
-            L = E.args[1].x
-            # last element of a concatenation  ... + [X]
+            # the output sublist is the LAST positional argument of the adjoint einsum: written out, or the last
+            # element of a starred concatenation  *(... + [X])
             last = None
-            cur = L
-            for _ in range(8):
+            if E.args[-1].op != "star":
+                last = E.args[-1]
+            cur = E.args[-1].x if E.args[-1].op == "star" else None
+            for _ in range(8 if cur is not None else 0):
                 while cur.op == "seq":
                     cur = cur.value
                 if cur.op == "bin" and cur.opname == "Add":
